@@ -286,6 +286,18 @@ func xc21CountSource(c *Ctx, rule string, minSites int) {
 				count := call.Call.Args[1]
 				a := &xc21An{fn: fn, routerField: rf, visiting: map[ssa.Value]bool{}}
 
+				// a separate call that is reached only after a table-first count was found zero is a fallback SITE
+				// (the same decision written as early returns instead of as one merged count)
+				if !a.hasPrimary(count) {
+					zeroed, zdescr := a.zeroEdges()
+					lim, reach := reachUnguarded(fn, zeroed, nil)[b]
+					if len(zeroed) > 0 && (!reach || indexIn(b, call) >= lim) {
+						why := fmt.Sprintf("fallback call site: reachable only across an edge establishing that the table-first count is zero [%s]", strings.Join(dedup(zdescr), "; "))
+						c.add("valueflow", rule, base+"#reads-installed-table", Held, pos, why)
+						c.add("valueflow", rule, base+"#table-count-wins", Held, pos, why)
+						continue
+					}
+				}
 				var leaves []string
 				for _, in := range xc21Leaves(count) {
 					if !xc21IsZero(in.leaf) {
